@@ -1,9 +1,9 @@
 #!/bin/bash
-# Verify and evaluate every X.diff in /tmp/wt-<ID>/SEEDED against the given checks. Usage: eval_round.sh <ID> "<checks>"
+# Run the given quick checks against every X.diff in /tmp/wt-<ID>/SEEDED (already confirmed by verify_round.sh).
+# Usage: eval_round.sh <ID> "<checks>"
 ID=$1; CHK=${2:-$1}
 for d in /tmp/wt-$ID/SEEDED/?.diff; do
   x=$(basename $d .diff)
-  v=$(/verif/tools/verify_seeded.sh $ID $x 2>&1 | tail -2 | tr '\n' ' ')
-  echo "### $ID-$x verify: $v"
-  /verif/tools/try_seeded.sh $d $CHK 2>&1 | grep -E "^==|^failure" | cut -c1-240 | head -6
+  echo "### $ID-$x"
+  /verif/tools/try_seeded.sh $d $CHK 2>&1 | grep -E "^==|^failure|not clean|does not apply" | cut -c1-240 | head -8
 done
